@@ -73,6 +73,7 @@ type Model struct {
 	Disabled []string // call paths (with context) that were disabled
 	Problems []string
 	TopOuts  map[string]interface{}
+	TopDeps  map[string]DepSet // per top-level output: the stage invocations it flows from
 	// TopMapped: the top-level call is a map call; each TopOuts value is the
 	// collection (array / keyed map) of the forks' values of that output.
 	TopMapped bool
@@ -460,7 +461,7 @@ func (m *Model) Run() {
 	}
 	m.invByKey = map[string]*StageInvocation{}
 	m.IndepOfEmpty = map[string]int{}
-	m.TopOuts, _, _ = m.evalPipeline(pl, inputs, nil, nil, callCtx{path: pl.Name})
+	m.TopOuts, m.TopDeps, _ = m.evalPipeline(pl, inputs, nil, nil, callCtx{path: pl.Name})
 }
 
 func paramTypes(ps []Param) map[string]*Type {
